@@ -1,0 +1,9 @@
+//go:build verif
+
+package store
+
+// VerifGcLog runs one pass of the size-triggered collector (production: every 30 s).
+// Verification hook: compiled only with the build tag "verif".
+func (s *Storer) VerifGcLog() {
+	s.gcLog()
+}
